@@ -9,7 +9,7 @@ META = {
         "L = little-endian 16 bits, bit-provenance form); D3 NMEA skip through one line request, line-primitive contract; D4 RTCM3 length "
         "and read script (= C01-D2); D5 end-of-data discipline by interval analysis of every read-primitive call site (an empty result may mean "
         "EOF only for a non-empty request); D6 loop exits and the iterator protocol; D7 unknown message numbers are not errors (= C15-D4 stub path). "
-        "The socket wrapper's FIFO and readline discipline (C11-D1..D6) is evaluated as a shared obligation because the property quantifies over socket-backed streams; inputs outside the property's class (noise containing sync bytes, incomplete foreign items) are not covered."
+        "The layout of the MSM mask maps (C09-D1/D2: every mask position scanned, one entry per set bit, stored where the lookups read) is shared because a frame whose derived lookups miss raises in the decoder and is dropped, and the decoder reading no state left by an earlier parse (C13-D1) because the property holds for every order of frames. The socket wrapper's FIFO and readline discipline (C11-D1..D6) is evaluated as a shared obligation because the property quantifies over socket-backed streams; inputs outside the property's class (noise containing sync bytes, incomplete foreign items) are not covered."
     ),
     "trusted": ["CPython ast parser", "sa/symeval.py, sa/domains.py", "oracle/frames.json", "assumption: stream.read(n) returns at most n bytes, readline() a line"],
 }
@@ -45,4 +45,11 @@ def run(eng, ctx):
     from . import decoder as DEC
 
     DEC.conversion_total(eng, ctx, "C02.D8")  # ... and no field conversion fails on particular field contents
+    # ... and, for the MSM types, only if the satellite / cell maps built from the frame's own masks have an entry for every ordinal the
+    # derived PRN / cell lookups ask for: a map that is too short, or one taken from another frame, raises in the lookup and the frame vanishes
+    from . import C09 as MSMMAPS
+
+    MSMMAPS.run(eng, ctx, layout_only=True)
+    # "in every order": whether a frame decodes may not depend on the frames before it - the decoder reads no state left by an earlier parse
+    SH.decoder_reads_no_mutable_state(eng, ctx, "C13.D1")
     ctx.instance("foreign-protocol branches", 2, 2)
